@@ -7,7 +7,7 @@ CONSTANTS
   AnchorRules <- mcAnchorRules
   DefRule <- Dom
   InitRules <- mcInitRules
-  Ops <- mcOps
+  Ops <- mcOpsClear
   MaxLevel = 4
   ClearOrder <- mcClearOrder
 INVARIANT CrashSafe
